@@ -30,6 +30,11 @@ func fileIDLess(id1, id2 fileID) bool {
 	return false
 }
 
+// maxSliceByteCount is the largest slice size accepted when reading
+// a set. Slices are held in memory, so anything near this is
+// unusable anyway; beyond it, buffer allocations would panic.
+const maxSliceByteCount = 1 << 40
+
 type mainPacket struct {
 	sliceByteCount int
 	recoverySet    []fileID
@@ -62,7 +67,7 @@ func readMainPacket(body []byte) (mainPacket, error) {
 	}
 
 	maxInt := uint64(^uint(0) >> 1)
-	if h.SliceSize == 0 || h.SliceSize%4 != 0 || h.SliceSize > maxInt {
+	if h.SliceSize == 0 || h.SliceSize%4 != 0 || h.SliceSize > maxInt || h.SliceSize > maxSliceByteCount {
 		return mainPacket{}, errors.New("invalid slice size")
 	}
 
